@@ -633,7 +633,16 @@ class CancelScope(BaseCancelScope):
         Restart the cancellation effort in the closest directly cancelled parent scope.
 
         """
-        scope = self._parent_scope
+        if self._parent_scope is not None:
+            self._parent_scope._restart_cancellation()
+
+    def _restart_cancellation(self) -> None:
+        """
+        Restart the cancellation effort in the closest directly cancelled scope, starting
+        from this one.
+
+        """
+        scope: CancelScope | None = self
         while scope is not None:
             if scope._cancel_called:
                 if scope._cancel_handle is None:
@@ -909,6 +918,7 @@ class TaskGroup(abc.TaskGroup):
         )
         self.cancel_scope._tasks.add(task)
         self._tasks.add(task)
+        self.cancel_scope._restart_cancellation()
         if sys.version_info >= (3, 14) and self.cancel_scope._host_task is not None:
             asyncio.future_add_to_awaited_by(task, self.cancel_scope._host_task)
 
@@ -2670,6 +2680,7 @@ class AsyncIOBackend(AsyncBackend):
                 task = cast(asyncio.Task, current_task())
                 _task_states[task] = TaskState(None, scope)
                 scope._tasks.add(task)
+                scope._restart_cancellation()
             try:
                 return await func(*args)
             except CancelledError as exc:
